@@ -349,6 +349,42 @@ namespace
         }
   }
 
+  // ---- family 9: grains given as rotation matrices that are orthonormal only to two digits (typed by hand), and fast, long slabs with the plate model ----
+  void family_hand_typed(std::vector<WCase> &out)
+  {
+    for (int sph = 0; sph < 2; ++sph) for (int fault = 0; fault < 2; ++fault) for (const char *c45 : {"0.71", "0.70", "0.7071067811865476"})
+          {
+            const double s = sph ? 1.0 : 1e5;
+            WCase w; w.sph = sph; w.has_cs = false;
+            w.family = std::string(fault ? "fault" : "slab") + "/uniform grains given as rotation matrices with cos 45 written " + c45;
+            const std::string m = std::string("[[") + c45 + "," + c45 + ",0],[-" + c45 + "," + c45 + ",0],[0,0,1]]";
+            const std::string seg = "{\"length\":3e5,\"thickness\":[1e5],\"angle\":[45],\"grains models\":[{\"model\":\"uniform\",\"compositions\":[0,1],\"rotation matrices\":[" + m + "," + m + "],\"grain sizes\":[0.5,-1]}]}";
+            const std::string feat = std::string("{\"model\":\"") + (fault ? "fault" : "subducting plate") + "\",\"name\":\"L\",\"coordinates\":[" + pt({0,-3*s}) + "," + pt({0.4*s,0}) + "," + pt({0,3*s}) + "],\"dip point\":" + pt({9*s,0}) +
+                                     ",\"segments\":[" + seg + "],\"sections\":[{\"coordinate\":1,\"segments\":[" + seg + "]}]}";
+            w.text = world(coord(sph), {feat});
+            for (double x : {-0.5, 0.0, 0.2, 0.5, 1.0, 1.5, 2.0}) for (double y : {0.0, -1.5, 1.0, 2.9}) for (double d : {1e3, 3e4, 1e5, 1.5e5, 2e5})
+                  w.pts.push_back({x*s, y*s, d, false, {{0,0,0}}, "across the feature"});
+            out.push_back(w);
+          }
+    for (int sph = 0; sph < 2; ++sph) for (double v : {0.08, 0.15, 0.02})
+        {
+          const double s = sph ? 1.0 : 1e5;
+          WCase w; w.sph = sph; w.has_cs = false;
+          w.family = "slab/plate model on a slab 1200 km long, plate velocity " + num(v);
+          const std::string feat = "{\"model\":\"subducting plate\",\"name\":\"L\",\"coordinates\":[" + pt({0,-3*s}) + "," + pt({0.4*s,0}) + "," + pt({0,3*s}) + "],\"dip point\":" + pt({9*s,0}) +
+                                   ",\"segments\":[{\"length\":1.2e6,\"thickness\":[1e5],\"angle\":[50]}],\"temperature models\":[{\"model\":\"plate model\",\"density\":3300,\"plate velocity\":" + num(v) + "}]}";
+          w.text = world(coord(sph), {feat});
+          for (double al : {1e4, 1e5, 2.5e5, 4e5, 6e5, 9e5, 1.15e6}) for (double off : {1e4, 5e4, 9e4}) for (double y : {0.0, 1.5})
+                {
+                  // a point 'al' along the 50-degree plane and 'off' below it (cartesian: exact; spherical: close enough to be inside)
+                  const double c = std::cos(50*PI/180), sn = std::sin(50*PI/180);
+                  const double h = al*c - off*sn, d = al*sn + off*c;
+                  w.pts.push_back({(0.2 + (sph ? h/111e3 : h/1e5))*s, y*s, d, false, {{0,0,0}}, "down the slab"});
+                }
+          out.push_back(w);
+        }
+  }
+
   void run_world(const std::shared_ptr<std::vector<WCase>> &cases, uint64_t idx, Ctx &ctx)
   {
     static const int c_q = Ctx::counter_id("queries"), c_ex = Ctx::counter_id("queries_refused_with_exception"), c_rej = Ctx::counter_id("worlds_rejected_at_construction"), c_2d = Ctx::counter_id("queries_2d");
@@ -432,6 +468,7 @@ int main(int argc, char **argv)
     family_cs(*cases);
     family_polar(*cases);
     family_zero_parameters(*cases);
+    family_hand_typed(*cases);
     family_water(*cases);
     family_defaults(*cases);
     std::vector<Suite> s(1);
